@@ -143,7 +143,7 @@ fn shapes_case<P: G>(cfg: Cfg) -> Box<dyn Case> {
     })
 }
 
-/// (C)+(D) hostile points at every point position; promises that do not fit
+/// (C)+(D) hostile points at every point position, hostile scalars at every scalar position; promises that do not fit
 fn points_and_promises_case<P: G>(cfg: Cfg) -> Box<dyn Case> {
     case(format!("{}/{}/points+promises", P::NAME, cfg.key()), move |_v| {
         fg::clear_intern();
@@ -158,11 +158,16 @@ fn points_and_promises_case<P: G>(cfg: Cfg) -> Box<dyn Case> {
         if let Some(rp) = refbp::ref_decode(&P::to_bytes(&proof)) {
             let h = built.params.h_base().clone();
             for m in mutate::menu(&rp, false) {
-                if !matches!(m, Mut::PointIdentity(_) | Mut::PointUndecodable(_) | Mut::PointTopBit(_) | Mut::PointPlusH(_) | Mut::PointCopy(..) | Mut::DropRound | Mut::DupRound | Mut::AppendRounds(_)) {
-                    continue;
-                }
+                // the whole menu: hostile points, round surgery, and every scalar position set to zero / negated / shifted /
+                // copied / written non-canonically (value + l), degree tags
                 if let Some(b) = mutate::apply::<P>(&rp, &m, &h) {
-                    if let Ok(Ok(p2)) = catch(|| P::from_bytes(&b)) {
+                    let decoded = catch(|| P::from_bytes(&b));
+                    res.executions += 1;
+                    if let Err(p) = &decoded {
+                        res.outcome = "panic".into();
+                        res.violate(format!("{:?}/decode", m), format!("from_bytes panicked on a {}-byte input ({:?} applied to an honest proof): {}", b.len(), m, p));
+                    }
+                    if let Ok(Ok(p2)) = decoded {
                         res.transitions += 1;
                         for mode in MODES {
                             let (obs, cost) = measured_verify(std::slice::from_ref(&built.statement), std::slice::from_ref(&p2), &[CTX_A], mode);
@@ -522,7 +527,7 @@ pub fn run(rep: &mut Report) {
     rep.rule = "in isolated child processes, release build with debug assertions and overflow checks, both groups: (A) every length x \
                 every first byte and inputs up to 3.2 MB through the decoder; (B) statement shapes of the lattice x proof shapes (degree \
                 1..6 x rounds {1..log2(n*c)+2, 31, 32, 63, 64, 70, 1000}) x 3 modes, seeded; (C) identity / undecodable / wrong point at \
-                every point position, dropped / duplicated rounds; (D) promises {2^n-1, 2^n, u64::MAX}; (E) every batch of 1..3 members \
+                every point position, zero / negated / shifted / copied / non-canonical (value + l) scalar at every scalar position, degree tags, dropped / duplicated rounds, through the decoder and (if it decodes) the verifier; (D) promises {2^n-1, 2^n, u64::MAX}; (E) every batch of 1..3 members \
                 over {honest, honest m=2, honest other capacity, wrong degree tag, extra round, undecodable point, identity point, a narrow \
                 proof attached to a wide statement} sharing \
                 one cloned parameter object, seeded, 3 modes; (F) 257-member batches whose largest member sits in one chunk; (G) statements with aggregation 512 / 1024; oracle: Ok or \
